@@ -47,5 +47,30 @@ META = {
                 note=TRUSTED),
 }
 
+META.update({
+    'C05': dict(level='other', design_ref='DESIGN.md 4.2 R-CTOR/R-MUT/R-VIS, 4.5, 5/C05',
+                technique='who-may-construct / who-may-mutate scan over all MIR bodies + impl-set and visibility facts + compile-fail witnesses with twins',
+                text='Structural: every construction of a newtype (aggregate or constructor-as-function) in any body of the crate lies in the guarded constructor, the flagged unsafe new_unchecked or derived clone; no store/&mut/raw pointer into the field, no transmute; '
+                     'no DerefMut/AsMut/BorrowMut/IndexMut/&mut IntoIterator impl, no fn returning &mut or taking &mut T; field private to a private module, re-exports exactly the declared visibility; every conversion has the constructor\'s outcome table. '
+                     'Witnesses: a catalogue of ~160 bypass programs x 4 families must be rejected by rustc at the offending line with the expected error code, each with a compiling twin.',
+                note=TRUSTED + '; rustc privacy and borrow checking'),
+    'C09': dict(level='other', design_ref='DESIGN.md 4.3, 5/C09',
+                technique='outcome tables of `arbitrary`: range containment by constant folding, panic-row infeasibility by interval evaluation, reachability by evaluating rows at attained endpoint draws',
+                text='PARTIAL. Decided: (all families) any returned value comes from the canonical constructor (R-CTOR + table); (integers) int_in_range endpoints fold into the valid range and every panic row is infeasible for every value of the range; '
+                     '(strings) target-length range is inside the declared length range, case-mapping growth is flagged structurally; (floats) every panic row that depends on the first draw only is either proven infeasible by interval evaluation, '
+                     'or shown reachable by a concrete attained draw (violation). Not decided: rows depending on values produced in retry loops or further draws (reported as undecided), termination of loops.',
+                note=TRUSTED + '; arbitrary::Unstructured::int_in_range returns a value of the range; IEEE-754 arithmetic reproduced in the declared float type'),
+    'C14': dict(level='translation_validation', design_ref='DESIGN.md 4.3 R-ARB-INT, 5/C14',
+                technique='constant folding of the int_in_range endpoints in MIR vs the reference valid range; outcome table of arbitrary vs constructor table',
+                text='For all integer types x bound-kind combinations x spellings (literal, MIN/MAX, constants, shift/arithmetic expressions): the folded int_in_range endpoints equal the reference model\'s [lo, hi] exactly, and the drawn value reaches the canonical constructor unmodified. '
+                     'Surjectivity of int_in_range onto its range is the arbitrary crate\'s contract.',
+                note=TRUSTED + '; arbitrary::Unstructured::int_in_range is onto its range'),
+    'C16': dict(level='translation_validation', design_ref='DESIGN.md 4.2 R-MSG, 5/C16',
+                technique='sibling agreement: relation stated by the Display template (decoded from fmt::Arguments in MIR) vs relation enforced by the check of the same variant',
+                text='For every bound-violation variant of every corpus declaration: the format template (decoded from the compiled fmt::Arguments bytes) names the newtype; an argument is the very bound term the check compares against; '
+                     'the relation phrase, mapped through a fixed vocabulary to a set of orderings, equals the accept-set extracted from the validator check. ParseError::Validate and serde errors display the validation error through its own Display.',
+                note=TRUSTED + '; the relation vocabulary (greater than / at least / less or equal to / ...) is the reading of the English phrases'),
+})
+
 NOT_YET = {
 }
